@@ -7,7 +7,7 @@ import optrun
 from common import c_Q, c_bool, c_list, c_nat, c_opt
 from c06 import LABELS
 
-REQ = ['Fitness.Fitness', 'Archive.Hof', 'Archive.Keeper', 'Evo.History', 'Evo.Loop']
+REQ = ['Fitness.Fitness', 'Archive.Hof', 'Evo.History', 'Evo.Loop']
 FN = 'fun o => [agree o; holds_b o; capacity_reached o]'
 
 
@@ -33,22 +33,24 @@ def run_to_coq(rec):
     def ci(s):
         return cls.setdefault(s, len(cls))
     gens = []
-    for i, g in enumerate(h['generations']):
+    ngs = {}
+    for g in h['generations']:
         members = []
         for u in g['members']:
             r = inds[u]
-            ng = r['native_generation']
-            ng_then = ng if (ng is not None and ng < i) else None
-            members.append('{| uid := %s; fitness := %s; gclass := %s; ngen := %s |}' % (
-                c_nat(ui(u)), fit_coq(r['fitness'], multi), c_nat(ci(r['id'])), c_opt(ng_then, c_nat, 'nat')))
+            if r['native_generation'] is not None:
+                ngs[ui(u)] = r['native_generation']
+            members.append('{| uid := %s; fitness := %s; gclass := %s; ngen := None |}' % (
+                c_nat(ui(u)), fit_coq(r['fitness'], multi), c_nat(ci(r['id']))))
         gens.append('(%s, %s)' % (LABELS.get(g['label'], 'LOther'), c_list(members, 'indiv')))
     snaps = [c_list([c_nat(ui(u)) for u in s], 'nat') for s in h['archive']]
     result = rec['result'] or []
-    return ('{| or_multi := %s; or_keep := %s; or_metrics := %s; or_gens := %s; or_snaps := %s; '
-            'or_result := %s; or_verified := %s |}') % (
-        c_bool(multi), c_nat(cfg.get('keep_n_best', 1)), c_nat(len(cfg['objective']['metrics'])),
+    return ('{| or_multi := %s; or_keep := %s; or_gens := %s; or_snaps := %s; '
+            'or_result := %s; or_verified := %s; or_ng := %s |}') % (
+        c_bool(multi), c_nat(cfg.get('keep_n_best', 1)),
         c_list(gens, 'label * list indiv'), c_list(snaps, 'list nat'),
-        c_list([c_nat(ci(r['id'])) for r in result], 'nat'), c_list([c_bool(r['verified']) for r in result], 'bool'))
+        c_list([c_nat(ci(r['id'])) for r in result], 'nat'), c_list([c_bool(r['verified']) for r in result], 'bool'),
+        c_list(['(%s, %s)' % (c_nat(u), c_nat(n)) for u, n in sorted(ngs.items())], 'nat * nat'))
 
 
 def summarise(rec):
